@@ -1,11 +1,11 @@
 package main
 
 import (
-	"runtime/pprof"
 	"flag"
 	"fmt"
 	"os"
 	"path/filepath"
+	"runtime/pprof"
 	"sort"
 	"strings"
 )
@@ -255,8 +255,8 @@ func cmdVerify(args []string) {
 		cnt := make([]int, len(buckets))
 		tot := 0.0
 		type slow struct {
-			n string
-			s float64
+			n  string
+			s  float64
 			st string
 		}
 		var slows []slow
@@ -286,4 +286,3 @@ func cmdVerify(args []string) {
 		}
 	}
 }
-
